@@ -99,7 +99,7 @@ TwinClauses(e) ==
               ELSE got = 0,
    C18_same   |-> ante.C18_same => (e.res.ok /\ e.text = Trace[e.tw18].text) ]]
 
-AllClauses == {"C01_word", "C01_text", "C02_accept", "C02_final", "C06_add", "C06_remove", "C06_replace", "C06_out",
+AllClauses == {"C01_word", "C01_text", "C02_accept", "C02_final", "C03_accepts", "C06_add", "C06_remove", "C06_replace", "C06_out",
                "C07_ext", "C10_frame", "C10_future", "C11_obs", "C11_state", "C12_reject", "C12_unique", "C15_same",
                "C15_noop", "C15_valframe", "C15_readchild", "C15_target", "C16_pure", "C16_future", "C18_free", "C18_same", "C18_order", "C19_class", "C19_quiet", "cascade"}
 
